@@ -16,7 +16,10 @@
 namespace vf
 {
 //---------------------------------------------------------------------------//
-inline std::string zoo_array_json(int nx, int ny, int nz)
+//! `shifted`: the grid starts at (-1.5, 0.25, -2) instead of the origin (array-local coordinates of
+//! both signs, no plane at 0) and the cell widths alternate w, 1.5 w, w, ... (grid[i+1]-grid[i] is
+//! not constant; the cell universe is unbounded outside its ball, so wider cells are valid).
+inline std::string zoo_array_json(int nx, int ny, int nz, bool shifted = false)
 {
     auto join = [](std::vector<double> const& v) {
         std::ostringstream os;
@@ -28,10 +31,21 @@ inline std::string zoo_array_json(int nx, int ny, int nz)
     // cell widths 1, 0.75, 1.25 along x, y, z: grid planes
     double const w[3] = {1.0, 0.75, 1.25};
     int const n[3] = {nx, ny, nz};
+    double const org[3] = {shifted ? -1.5 : 0.0, shifted ? 0.25 : 0.0, shifted ? -2.0 : 0.0};
+    double const wmax[3] = {w[0] * (shifted ? 1.5 : 1.0), w[1] * (shifted ? 1.5 : 1.0),
+                            w[2] * (shifted ? 1.5 : 1.0)};
     std::vector<double> g[3];
     for (int a = 0; a < 3; ++a)
-        for (int i = 0; i <= n[a]; ++i)
-            g[a].push_back(i * w[a]);
+    {
+        double x = org[a];
+        g[a].push_back(x);
+        for (int i = 0; i < n[a]; ++i)
+        {
+            x = shifted ? x + w[a] * (1 + 0.5 * (i % 2)) : (i + 1) * w[a];
+            g[a].push_back(x);
+        }
+    }
+    double const lo[3] = {g[0].front(), g[1].front(), g[2].front()};
     double const hi[3] = {g[0].back(), g[1].back(), g[2].back()};
     std::vector<double> tr;
     std::string daughters;
@@ -53,45 +67,45 @@ inline std::string zoo_array_json(int nx, int ny, int nz)
        << W << R"(]],"daughters":[1],"md":{"name":"world"},"parent_cells":[1],)"
        << R"("surface_labels":["o.mx","o.px","o.my","o.py","o.mz","o.pz","a.mx","a.px","a.my","a.py","a.mz","a.pz"],)"
        << R"("surfaces":{"data":[)" << -W << "," << W << "," << -W << "," << W << "," << -W << "," << W
-       << ",0," << hi[0] << ",0," << hi[1] << ",0," << hi[2]
+       << "," << lo[0] << "," << hi[0] << "," << lo[1] << "," << hi[1] << "," << lo[2] << "," << hi[2]
        << R"(],"sizes":[1,1,1,1,1,1,1,1,1,1,1,1],)"
        << R"("types":["px","px","py","py","pz","pz","px","px","py","py","pz","pz"]},)"
        << R"("transforms":[[]],"volume_labels":["[EXTERIOR]","arrayhole","around"],"volumes":[)"
        << R"({"faces":[0,1,2,3,4,5],"flags":1,"logic":"0 1 ~ & 2 & 3 ~ & 4 & 5 ~ & ~"},)"
-       << R"({"bbox":[[0,0,0],[)" << hi[0] << "," << hi[1] << "," << hi[2]
+       << R"({"bbox":[[)" << lo[0] << "," << lo[1] << "," << lo[2] << "],[" << hi[0] << "," << hi[1] << "," << hi[2]
        << R"(]],"faces":[6,7,8,9,10,11],"logic":"0 1 ~ & 2 & 3 ~ & 4 & 5 ~ &"},)"
        << R"({"bbox":[[)" << -W << "," << -W << "," << -W << "],[" << W << "," << W << "," << W
        << R"(]],"faces":[0,1,2,3,4,5,6,7,8,9,10,11],"flags":1,)"
        << R"("logic":"0 1 ~ & 2 & 3 ~ & 4 & 5 ~ & 6 7 ~ & 8 & 9 ~ & 10 & 11 ~ & ~ &"}]},)";
     // universe 1: unit that holds the array
-    os << R"({"_type":"unit","bbox":[[0,0,0],[)" << hi[0] << "," << hi[1] << "," << hi[2]
+    os << R"({"_type":"unit","bbox":[[)" << lo[0] << "," << lo[1] << "," << lo[2] << "],[" << hi[0] << "," << hi[1] << "," << hi[2]
        << R"(]],"daughters":[2],"md":{"name":"arr"},"parent_cells":[1],)"
        << R"("surface_labels":[],"surfaces":{"data":[],"sizes":[],"types":[]},)"
        << R"("transforms":[[]],"volume_labels":["[EXTERIOR]","arr+"],"volumes":[)"
        << R"({"faces":[],"flags":2,"logic":"* ~","zorder":"x"},)"
-       << R"({"bbox":[[0,0,0],[)" << hi[0] << "," << hi[1] << "," << hi[2]
+       << R"({"bbox":[[)" << lo[0] << "," << lo[1] << "," << lo[2] << "],[" << hi[0] << "," << hi[1] << "," << hi[2]
        << R"(]],"faces":[],"logic":"*","zorder":"A"}]},)";
     // universe 2: the rectangular array
     os << R"({"_type":"rectarray","daughters":[)" << daughters << R"(],"md":{"name":"arr+"},"translations":[)"
        << join(tr) << R"(],"x":[)" << join(g[0]) << R"(],"y":[)" << join(g[1]) << R"(],"z":[)"
        << join(g[2]) << "]},";
     // universe 3: one cell (a sphere inside the cuboid, so that cells have interior structure)
-    os << R"({"_type":"unit","bbox":[[0,0,0],[)" << w[0] << "," << w[1] << "," << w[2]
+    os << R"({"_type":"unit","bbox":[[0,0,0],[)" << wmax[0] << "," << wmax[1] << "," << wmax[2]
        << R"(]],"md":{"name":"cell"},"surface_labels":["ball"],)"
        << R"("surfaces":{"data":[0.5,0.375,0.625,0.09],"sizes":[4],"types":["s"]},)"
        << R"("volume_labels":["[EXTERIOR]","ball","cellfill"],"volumes":[)"
        << R"({"faces":[],"flags":2,"logic":"* ~","zorder":"x"},)"
        << R"({"bbox":[[0.2,0.075,0.325],[0.8,0.675,0.925]],"faces":[0],"logic":"0 ~"},)"
-       << R"({"bbox":[[0,0,0],[)" << w[0] << "," << w[1] << "," << w[2]
+       << R"({"bbox":[[0,0,0],[)" << wmax[0] << "," << wmax[1] << "," << wmax[2]
        << R"(]],"faces":[0],"logic":"0"}]})";
     os << "]}";
     return os.str();
 }
 
-inline celeritas::OrangeInput zoo_array(int nx, int ny, int nz)
+inline celeritas::OrangeInput zoo_array(int nx, int ny, int nz, bool shifted = false)
 {
     celeritas::OrangeInput inp;
-    std::istringstream is(zoo_array_json(nx, ny, nz));
+    std::istringstream is(zoo_array_json(nx, ny, nz, shifted));
     is >> inp;
     return inp;
 }
